@@ -4,6 +4,12 @@ Import ListNotations.
 From Verif Require Import Common.V Common.Base Model.StaticTrack.
 Open Scope N_scope.
 
+Section WithUnmarshal.
+(* rtp.Packet.Unmarshal: arbitrary *)
+Variable unm : list N -> option pkt.
+Local Notation step := (StaticTrack.step unm).
+Local Notation run := (StaticTrack.run unm).
+
 (* ------------------------------------------------------------- write loop *)
 
 Lemma rewritten_ext : forall p q,
@@ -49,12 +55,26 @@ Qed.
 Lemma step_write : forall s p,
   step s (Write p) = Ok (s, OWrite (N.of_nat (length (filter b_fail s))) (map (rewritten p) s) p).
 Proof.
-  intros s p. cbn [step].
+  intros s p. cbn [StaticTrack.step].
   pose proof (write_loop_deliveries s p) as Hd. pose proof (write_loop_errs s p) as He.
   destruct (write_loop s p) as [ds errs]. cbn [fst snd] in *. now subst.
 Qed.
 
 (* ----------------------------------------------------------------- unbind *)
+
+(* Write(bytes) is WriteRTP of the unmarshalled packet; an unmarshal error
+   reaches no writer and changes nothing *)
+Lemma step_write_raw : forall s raw,
+  (exists p, unm raw = Some p /\
+     step s (WriteRaw raw) = Ok (s, OWriteRaw (Ok (N.of_nat (length (filter b_fail s)), map (rewritten p) s))))
+  \/ (unm raw = None /\ step s (WriteRaw raw) = Ok (s, OWriteRaw (Err "unmarshal"))).
+Proof.
+  intros s raw. cbn [StaticTrack.step]. destruct (unm raw) as [p|] eqn:E.
+  - left. exists p. split; [reflexivity|].
+    pose proof (step_write s p) as H. cbn [StaticTrack.step] in H.
+    destruct (write_loop s p) as [ds errs]. injection H as -> ->. reflexivity.
+  - right. split; reflexivity.
+Qed.
 
 Lemma find_id_some : forall id l i,
   find_id id l = Some i ->
@@ -135,7 +155,7 @@ Lemma step_unbind : forall s id,
   (exists x s', step s (Unbind id) = Ok (s', OUnbind (Ok tt)) /\ In x s /\ b_id x = id /\ Permutation s (x :: s'))
   \/ (step s (Unbind id) = Ok (s, OUnbind (Err "unbind-failed")) /\ forall y, In y s -> b_id y <> id).
 Proof.
-  intros s id. cbn [step]. destruct (find_id id s) as [i|] eqn:E.
+  intros s id. cbn [StaticTrack.step]. destruct (find_id id s) as [i|] eqn:E.
   - left. destruct (find_id_some id s i E) as (l1 & x & l2 & -> & <- & Hx & _).
     destruct (swap_delete_perm l1 x l2) as (l' & Hsd & Hperm). rewrite Hsd.
     exists x, l'. repeat split; auto. apply in_or_app. right. now left.
@@ -146,18 +166,19 @@ Qed.
 
 Lemma step_ok : forall s o, exists s' ob, step s o = Ok (s', ob).
 Proof.
-  intros s [id ssrc [pt|] w fail|id|p].
+  intros s [id ssrc [pt|] w fail|id|p|raw].
   - eexists _, _. reflexivity.
   - eexists _, _. reflexivity.
   - destruct (step_unbind s id) as [(x & s' & H & _)|[H _]]; eexists _, _; exact H.
   - rewrite step_write. eexists _, _. reflexivity.
+  - destruct (step_write_raw s raw) as [(p & _ & H)|(_ & H)]; eexists _, _; exact H.
 Qed.
 
 Lemma run_ok : forall ops s, exists s' obs, run s ops = Ok (s', obs) /\ length obs = length ops.
 Proof.
   induction ops as [|o t IH]; intros s.
   - exists s, []. split; reflexivity.
-  - cbn [run]. destruct (step_ok s o) as (s1 & ob & ->).
+  - cbn [StaticTrack.run]. destruct (step_ok s o) as (s1 & ob & ->).
     destruct (IH s1) as (s2 & obs & -> & Hlen). exists s2, (ob :: obs). split; [reflexivity|].
     cbn [length]. now rewrite Hlen.
 Qed.
@@ -174,8 +195,8 @@ Lemma run_app : forall ops1 ops2 s s1 obs1,
                          end.
 Proof.
   induction ops1 as [|o t IH]; intros ops2 s s1 obs1 H.
-  - cbn [run] in H. injection H as <- <-. cbn [app]. destruct (run s ops2) as [[s2 obs2]| |]; reflexivity.
-  - cbn [run app] in *. destruct (step s o) as [[s' ob]| |]; try discriminate.
+  - cbn [StaticTrack.run] in H. injection H as <- <-. cbn [app]. destruct (run s ops2) as [[s2 obs2]| |]; reflexivity.
+  - cbn [StaticTrack.run app] in *. destruct (step s o) as [[s' ob]| |]; try discriminate.
     destruct (run s' t) as [[s'' obs]| |] eqn:Et; try discriminate.
     injection H as <- <-. rewrite (IH ops2 s' s'' obs Et).
     destruct (run s'' ops2) as [[s2 obs2]| |]; reflexivity.
@@ -218,7 +239,7 @@ Lemma step_inv : forall s sp o,
   match o with Bind id _ (Some _) _ _ => ~ In id (map b_id sp) | _ => True end ->
   exists s' ob, step s o = Ok (s', ob) /\ inv s' (spec_step sp o).
 Proof.
-  intros s sp o [Hperm Hnd] Hguard. destruct o as [id ssrc [pt|] w fail|id|p].
+  intros s sp o [Hperm Hnd] Hguard. destruct o as [id ssrc [pt|] w fail|id|p|raw].
   - eexists _, _. split; [reflexivity|]. cbn [spec_step]. split.
     + rewrite <- Permutation_cons_append. now constructor.
     + cbn [map b_id]. now constructor.
@@ -241,6 +262,7 @@ Proof.
       intros y Hy. apply negb_true_iff, Nat.eqb_neq. apply Hnone.
       eapply Permutation_in; [symmetry; exact Hperm|exact Hy].
   - rewrite step_write. eexists _, _. split; [reflexivity|]. now split.
+  - destruct (step_write_raw s raw) as [(p & _ & H)|(_ & H)]; eexists _, _; (split; [exact H|now split]).
 Qed.
 
 Lemma run_inv : forall ops s sp,
@@ -252,7 +274,7 @@ Proof.
   - cbn [wf_from] in Hwf. destruct Hwf as [Hg Hwf].
     destruct (step_inv s sp o Hinv Hg) as (s1 & ob & Hstep & Hinv1).
     destruct (IH s1 (spec_step sp o) Hinv1 Hwf) as (s2 & obs & Hrun & Hinv2).
-    exists s2, (ob :: obs). cbn [run fold_left]. rewrite Hstep, Hrun. split; [reflexivity|exact Hinv2].
+    exists s2, (ob :: obs). cbn [StaticTrack.run fold_left]. rewrite Hstep, Hrun. split; [reflexivity|exact Hinv2].
 Qed.
 
 Lemma refines : forall ops, wf ops ->
@@ -276,7 +298,7 @@ Proof.
     [split; constructor|exact Hwf|].
   exists s, obs, (map (rewritten p) s), (N.of_nat (length (filter b_fail s))).
   split; [|split].
-  - rewrite (run_app ops [Write p] [] s obs Hrun). cbn [run]. rewrite step_write. reflexivity.
+  - rewrite (run_app ops [Write p] [] s obs Hrun). cbn [StaticTrack.run]. rewrite step_write. reflexivity.
   - apply Permutation_map. exact Hperm.
   - exact Hnd.
 Qed.
@@ -288,10 +310,10 @@ Lemma spec_no_id : forall ops' id sp,
 Proof.
   induction ops' as [|o t IH]; intros id sp Hsp Hnb b Hb; [now apply Hsp|].
   cbn [fold_left] in Hb. revert Hb. apply IH.
-  - destruct o as [id' ssrc [pt|] w fail|id'|p]; cbn [spec_step]; try exact Hsp.
+  - destruct o as [id' ssrc [pt|] w fail|id'|p|raw]; cbn [spec_step]; try exact Hsp.
     + cbn [no_bind] in Hnb. intros b' [<-|Hb']; [cbn [b_id]; tauto|now apply Hsp].
     + intros b' Hb'. apply filter_In in Hb'. now apply Hsp.
-  - destruct o as [id' ssrc [pt|] w fail|id'|p]; cbn [no_bind] in Hnb; tauto.
+  - destruct o as [id' ssrc [pt|] w fail|id'|p|raw]; cbn [no_bind] in Hnb; tauto.
 Qed.
 
 Lemma unbind_final : forall ops id ops', wf (ops ++ Unbind id :: ops') -> no_bind id ops' ->
@@ -323,3 +345,43 @@ Proof.
   cbn zeta. split; [|split; reflexivity].
   unfold wf. cbn [wf_from spec_step map b_id In]. repeat split; intros H; repeat destruct H as [H|H]; try discriminate; auto.
 Qed.
+
+(* ---- Write(bytes) refines WriteRTP: with a marshaller that [unm] inverts on
+   padding-free packets, writing the marshalled bytes delivers exactly what
+   WriteRTP of the packet delivers, op by op over whole histories *)
+Section Marshal.
+  Variable marshal : pkt -> list N.
+  Hypothesis unm_marshal : forall p, p_hpad p = 0 -> p_ppad p = 0 -> unm (marshal p) = Some p.
+
+  Definition pad_free (o : op) : Prop :=
+    match o with Write p => p_hpad p = 0 /\ p_ppad p = 0 | _ => True end.
+  Definition raw_of (o : op) : op := match o with Write p => WriteRaw (marshal p) | o => o end.
+  Definition raw_obs (o : obs) : obs := match o with OWrite errs ds _ => OWriteRaw (Ok (errs, ds)) | o => o end.
+
+  Lemma step_raw_refines : forall s o s' ob, pad_free o ->
+    step s o = Ok (s', ob) -> step s (raw_of o) = Ok (s', raw_obs ob).
+  Proof.
+    intros s o s' ob Hpf H. destruct o as [id ssrc [pt|] w fail|id|p|raw]; cbn [raw_of].
+    1,2,5: (rewrite H; f_equal; f_equal; cbn [StaticTrack.step] in H).
+    - injection H as <- <-. reflexivity.
+    - injection H as <- <-. reflexivity.
+    - destruct (unm raw); [destruct (write_loop s p)|]; injection H as <- <-; reflexivity.
+    - rewrite H. cbn [StaticTrack.step] in H. destruct (find_id id s) as [i|]; [destruct (swap_delete s i)|];
+        try discriminate; injection H as <- <-; reflexivity.
+    - destruct Hpf as [Hh Hp]. cbn [StaticTrack.step] in *. rewrite (unm_marshal p Hh Hp).
+      destruct (write_loop s p) as [ds errs]. injection H as <- <-. reflexivity.
+  Qed.
+
+  Lemma run_raw_refines : forall ops s s' obs, Forall pad_free ops ->
+    run s ops = Ok (s', obs) -> run s (map raw_of ops) = Ok (s', map raw_obs obs).
+  Proof.
+    induction ops as [|o t IH]; intros s s' obs Hpf H.
+    - cbn [StaticTrack.run map] in *. injection H as <- <-. reflexivity.
+    - inversion Hpf as [|? ? Ho Ht]; subst. cbn [StaticTrack.run map] in *.
+      destruct (step s o) as [[s1 ob]| |] eqn:Es; try discriminate.
+      rewrite (step_raw_refines s o s1 ob Ho Es).
+      destruct (run s1 t) as [[s2 obs2]| |] eqn:Er; try discriminate.
+      injection H as <- <-. rewrite (IH s1 s2 obs2 Ht Er). reflexivity.
+  Qed.
+End Marshal.
+End WithUnmarshal.
